@@ -168,4 +168,9 @@ static inline int64_t sig_interrupt(int p, int b)
     return (b & 1) ? INT64_MIN + 3000 + p * 10 + b : ((INT64_C(3000) + p * 10 + b) << 33) + 7;
 }
 
+
+extern double des_tscale, des_t0;
+/* the duration an operation name stands for */
+#define des_dur(od) ((double)(od)->a * des_tscale)
+
 #endif
